@@ -185,6 +185,21 @@ static void runHistory(const Job& j) {
 		for (int k = 0; k < 40 && st != USCXML_FINISHED; k++) { auto t0 = std::chrono::steady_clock::now(); st = a.ip.step(DRAIN_MS); *out << "R " << st << "\n"; if (st == USCXML_IDLE && std::chrono::steady_clock::now() - t0 >= std::chrono::milliseconds(DRAIN_MS - 100)) break; }
 	}
 	dumpEnd(a, j);
+	if (j.flag("snapfinal") && st == USCXML_FINISHED && !resumed) {
+		// a finished session is a stable point too (serialize() accepts it): what is resumed from it has to be finished
+		try {
+			std::string ser = a.ip.serialize();
+			*out << "SER " << oneline(ser) << "\n";
+			make(b, j, "B ");
+			b.ip.deserialize(ser);
+			*out << "B RESUMED " << b.mon.cfg() << "\n";
+			pfx = "B ";
+			for (int k = 0; k < 4; k++) { InterpreterState sb = b.ip.step(0); *out << "B R " << sb << "\n"; }
+			dumpEnd(b, j);
+			pfx = "";
+		} catch (Event e) { *out << "SERTHROW " << oneline(e.name) << "\n"; }
+		return;
+	}
 	if (resumed) {
 		if (j.flag("lateresume")) {
 			make(b, j, "B ");
